@@ -46,7 +46,11 @@ def build_group(repo, group, canary=False):
     names = ["<header>"]
     kinds = ["text"]
     for kind, val in group["parts"]:
-        if kind == "text":
+        if kind == "raw":
+            chunks.append(val)
+            names.append("<raw>")
+            kinds.append("text")
+        elif kind == "text":
             chunks.append(f"// ---- prelude/spec {val} ----\n" + open(os.path.join(HERE, "prelude", val)).read() + "\n")
             names.append(val)
             kinds.append("text")
